@@ -59,6 +59,10 @@ SEEDED = {
     "Z06-A": ["C06"], "Z06-B": ["C06", "C07"], "Z07-A": ["C07"], "Z07-B": ["C07"], "Z08-A": ["C08"], "Z08-B": ["C08"], "Z11-A": ["C11"], "Z11-B": ["C11", "C01"],
     "Z12-A": ["C12", "C11"], "Z12-B": ["C12"], "Z13-A": ["C13", "C03"], "Z13-B": ["C13", "C03"], "Z14-A": ["C14"], "Z14-B": ["C14"], "Z15-A": ["C15"], "Z15-B": ["C15"],
     "Z16-A": ["C16"], "Z16-B": ["C16"], "Z17-A": ["C17"], "Z17-B": ["C17"], "Z03-A": ["C03"], "Z03-B": ["C03"], "Z04-A": ["C04"], "Z04-B": ["C04"], "Z09-A": ["C09"], "Z09-B": ["C09"],
+    "W01-A": ["C01"], "W01-B": ["C17", "C01"], "W02-A": ["C03", "C02"], "W02-B": ["C03", "C02"], "W03-A": ["C03"], "W03-B": ["C03", "C02"], "W04-A": ["C04", "C14"], "W04-B": ["C04"],
+    "W05-A": ["C05", "C01"], "W05-B": ["C05", "C03"], "W06-A": ["C06"], "W06-B": ["C06"], "W07-A": ["C07", "C17"], "W07-B": ["C07", "C06"], "W08-A": ["C08"], "W08-B": ["C08"],
+    "W09-A": ["C09"], "W09-B": ["C09"], "W11-A": ["C11"], "W11-B": ["C11", "C01"], "W12-A": ["C12", "C01"], "W12-B": ["C12", "C11"], "W13-A": ["C13", "C03"], "W13-B": ["C13"],
+    "W14-A": ["C14", "C15"], "W14-B": ["C14"], "W15-A": ["C15"], "W15-B": ["C15"], "W16-A": ["C16"], "W16-B": ["C16"], "W17-A": ["C17"], "W17-B": ["C17"],
     "C14-A": ["C14"], "C14-B": ["C14"], "C15-A": ["C15"], "C15-B": ["C15"], "C16-A": ["C16"], "C16-B": ["C16"],
 }
 
